@@ -82,7 +82,7 @@ def gen_name(rng):
 def gen_stmt(rng, g):
     k = rng.choice(["R", "R", "R", "S", "S", "M", "P", "O", "O", "X", "A", "H", "G"])
     if k == "R": return ("R", rng.randint(0, 1), g.atoms(), g.lits())
-    if k == "S": return ("S", rng.randint(0, 1), g.atoms(), g.i32(), [(l, rng.choice([0, 1, 1, 2, 3, -1, I32, g.i32()])) for l in g.lits()])
+    if k == "S": return ("S", rng.randint(0, 1), g.atoms(), g.i32(), [(l, rng.choice([0, 1, 1, 2, 3, I32, abs(g.i32()) % (I32 + 1)])) for l in g.lits()])
     if k == "M": return ("M", g.i32(), [(l, rng.choice([0, 1, 2, -5, g.i32()])) for l in g.lits()])
     if k == "P": return ("P", g.atoms())
     if k == "O": return ("O", gen_name(rng), g.lits())
@@ -181,7 +181,7 @@ def corpus(ctx):
         (b"", "I0 B E OK"), (b":- .{}.", "I0 B R,0,-,- R,1,-,- E OK"),
         (b"#minimize{a=0, b=-2}@-3. #project. #assume. #external z.", "I0 B M,-3,2:-2 P,- A,- X,26,2 E OK"),
         (b"x2147483647 :- not x_2147483647.", "I0 B R,0,2147483647,-2147483647 E OK"),
-        (b"x2147483648.", None), (b"a :- 1 {b=2147483648}.", None), (b"#step.", None), (b"a\n\n:- b,\n\n,", None),
+        (b"a :- 1{b=-1}.", None), (b"x2147483648.", None), (b"a :- 1 {b=2147483648}.", None), (b"#step.", None), (b"a\n\n:- b,\n\n,", None),
     ]]
 
 def generate(ctx):
